@@ -1,5 +1,5 @@
 (* C03 — preferred-engine (backtracking) insertion never changes relation content. *)
-From DR Require Import Model.Backtrack Proofs.SqlRules Proofs.BacktrackLaws.
+From DR Require Import Model.Backtrack Proofs.SqlRules Proofs.BacktrackLaws Proofs.MultiIter.
 Local Open Scope Z_scope.
 
 (* iteration.Engine.backtrack_unary — for every tree it can walk (unary operations in iteration
@@ -44,6 +44,16 @@ Theorem C03_result_engine : forall bt r t o r' pref,
   (o_backtrack o = false \/ exists res, bt r' t pref = Ok (res, false)) ->
   apply_with bt r t o = Err EngineError.
 Proof. exact require_refuses. Qed.
+
+(* whole programs over SEVERAL iteration engines: leaves, all unary operations with ANY combination of
+   preferred_engine / backtrack / transfer / require_preferred_engine (projections: without a preferred engine),
+   __getitem__, chains, materializations, transfers between the engines.  Every tree such a program builds denotes
+   the specification of the program — the rows, in order, of applying every call at the root — is well-formed,
+   has the specified columns and stays within iteration engines. *)
+Theorem C03_iteration_programs_with_options_denote_their_specification : forall env p t,
+  iterprog_ok env p -> build_multi p = Ok t ->
+  sem_tree env t = spec_mprog env p /\ wf_tree t /\ env_ok env t /\ columns t = mprog_cols p /\ all_iter t.
+Proof. exact build_multi_iter_built. Qed.
 
 (* non-vacuity: a projection that can only partly be inserted upstream of a selection, across a transfer *)
 Example C03_nonvacuous :
